@@ -199,12 +199,19 @@ pub fn spaces(tier: Tier) -> Vec<Space<'static>> {
     {
         const SEQS: [&[u8]; 10] = [b"\xEF\xBB\xBF", b"\xFE\xFF", b"\xC2\x85", b"\xC2\xA0", b"\xE2\x80\xA8", b"\xE3\x80\x80", b"\xE2\x80\x8B", b"\x00\x00", b"\r\n", b"\x0B"];
         let bases: Vec<&str> = vec!["$", "$.a", "$.a[0, 1 to last]", "$[*]?(@.a == 1 && exists(@.b))", "$.a > 1 || $.b == \"x\"", "$:a[\"b\"].*", "a.b[last - 1]", "exists($.a)", "$[*]?(@ != null)"];
-        sp.push(Space::new("multi-byte sequences (BOMs, Unicode white space, NUL run, CRLF, VT) inserted at every position", bases.len() as u64, move |i, acc| {
+        sp.push(Space::new("multi-byte sequences (BOMs, Unicode white space, NUL run, CRLF, VT) and every single byte value inserted at every position", bases.len() as u64, move |i, acc| {
             let t = bases[i as usize].as_bytes();
             for pos in 0..=t.len() {
                 for s in SEQS {
                     let mut x = t[..pos].to_vec();
                     x.extend_from_slice(s);
+                    x.extend_from_slice(&t[pos..]);
+                    judge_raw(&x, acc);
+                }
+                // and every single byte value
+                for b in 0..=255u8 {
+                    let mut x = t[..pos].to_vec();
+                    x.push(b);
                     x.extend_from_slice(&t[pos..]);
                     judge_raw(&x, acc);
                 }
